@@ -24,6 +24,7 @@ def util_module_fn(ps, name):
 
 @register
 class SortNoDuplicates(Contract):
+    optional_target = True  # a lemma about an internal helper of util.py
     target = "util.sort_no_duplicates"
     props = ("C03", "C04", "C08", "C09")
     bounded = "lists of 1..5 unknowns (quick) / 1..6 (thorough)"
@@ -69,6 +70,7 @@ class SortNoDuplicates(Contract):
 
 @register
 class SortDuplicates(Contract):
+    optional_target = True  # a lemma about an internal helper of util.py
     target = "util.sort_duplicates"
     props = ("C09",)
     bounded = "lists of 1..4 unknowns (quick) / 1..5 (thorough)"
@@ -95,6 +97,7 @@ class SortDuplicates(Contract):
 
 
 class ExtremumBase(Contract):
+    optional_target = True  # a lemma about an internal helper of util.py
     props = ("C08", "C09")
     bounded = "lists of 1..4 values"
     fn = None
@@ -135,6 +138,7 @@ class GetMinimum(ExtremumBase):
 
 @register
 class DistributePOverN(Contract):
+    optional_target = True  # a lemma about a private helper
     target = "resource._distribute_p_over_n"
     props = ("C02",)
     bounded = "n in 1..6 (the number of unit workers is a structural parameter); p symbolic"
